@@ -340,6 +340,18 @@ func CompileWarrior(r io.Reader, config SimulatorConfig) (WarriorData, error) {
 			return WarriorData{}, fmt.Errorf("symbol scanner: %s", err)
 		}
 		if forSeen {
+			// a FOR count may use the predefined constants like any
+			// other expression
+			for name, val := range map[string]Address{
+				"CORESIZE":     config.CoreSize,
+				"MAXLENGTH":    config.Length,
+				"MAXPROCESSES": config.Processes,
+				"MINDISTANCE":  config.Distance,
+			} {
+				if _, defined := symbols[name]; !defined {
+					symbols[name] = []token{{tokNumber, fmt.Sprintf("%d", val)}}
+				}
+			}
 			expandedTokens, err := ForExpand(newBufTokenReader(tokens), symbols)
 			if err != nil {
 				return WarriorData{}, fmt.Errorf("for: %s", err)
